@@ -202,6 +202,23 @@ def check(rep, prop, kinds, modules):
             rep.cov['connection_scenarios'] = len(lines)
             for l in held:
                 problems.append((['# re-run: go/bin/streamh -seed %d -n %d -only <id>' % (rep.seed, nreal), l], 0, 'view-corrupt', 'on a real connection: ' + l[:400]))
+    if prop == 'C02':
+        # ... and through the io.Reader adapter (NewReader): its Next/Peek/Until results are zero-copy views of its internal LinkBuffer
+        abin, o3 = common.build_harness('adapter')
+        if abin:
+            awd = os.path.join(wd, 'adapter'); os.makedirs(awd, exist_ok=True)
+            aops, aimpl = os.path.join(awd, 'ops'), os.path.join(awd, 'impl')
+            nseq = 3000 if rep.tier == 'thorough' else 400
+            subprocess.run([abin, '-seed', str(rep.seed), '-seqs', str(nseq), '-ops', '40', '-ops-out', aops, '-impl-out', aimpl], timeout=1800)
+            ol, il = open(aops).read().split('\n'), open(aimpl).read().split('\n')
+            start = 0; nz = 0
+            for i, (o, r) in enumerate(zip(ol, il)):
+                if o.startswith('seq '): start = i
+                if o.startswith('zr ') and ' new ' in o: nz += 1
+                if r.startswith('HELD-CHANGED'):
+                    problems.append((['# NewReader adapter sequence (replay: go/bin/adapter -replay <file with the lines below, without the leading "# ">)'] + ['# ' + x for x in ol[start:i + 1]], 0, 'view-corrupt', 'through the NewReader adapter: ' + r[:300]))
+                    break
+            rep.cov['adapter_reader_sequences'] = nz
     mine = [p for p in problems if p[2] in kinds]
     corr = [p for p in problems if p[2] in ('ledger-differs',)]
     other = [p for p in problems if p[2] not in kinds and p[2] != 'ledger-differs']
